@@ -56,7 +56,10 @@ var entryBundles = map[string]func([]byte, callSink){
 
 // spaceRunner owns the case ordinal used for crash containment.
 type spaceRunner struct {
-	w    *core.W
+	// inputsOnly (C16): leave out calls whose failure is a programming error of the
+	// caller (a nil schema or rule) rather than a rejected input.
+	inputsOnly bool
+	w          *core.W
 	mk   sinkMaker
 	ord  uint64
 	desc []byte
@@ -175,6 +178,97 @@ func (r *spaceRunner) run(b spaceBounds) {
 	r.graphFamily()
 	// (e) string-content family
 	r.stringFamily()
+	// (f) API call sequences in unusual orders
+	r.apiFamily()
+}
+
+// apiFamily: every sequence of <= 3 registration / query calls (repeated and late
+// registrations, nil and ill-named arguments, broken and mutually registered types)
+// on a small project, followed by the usual bundle of queries.
+func (r *spaceRunner) apiFamily() {
+	w := r.w
+	roots := []string{"@t", "{\n\t\"k\": @t,\n\t\"e\": 1 // {enum: @e}\n}", "1", ""}
+	type env struct {
+		root, t1, t2, broken *jschema.JSchema
+		re, badRe            *jregex.RSchema
+	}
+	ops := []struct {
+		name string
+		f    func(e *env) error
+	}{
+		{"AddType(@t,t1)", func(e *env) error { return e.root.AddType("@t", e.t1) }},
+		{"AddType(@t,t2)", func(e *env) error { return e.root.AddType("@t", e.t2) }},
+		{"AddType(@u,t2)", func(e *env) error { return e.root.AddType("@u", e.t2) }},
+		{"AddType(bad name,t1)", func(e *env) error { return e.root.AddType("t", e.t1) }},
+		{"AddType(empty name,t1)", func(e *env) error { return e.root.AddType("", e.t1) }},
+		{"AddType(@n,nil)", func(e *env) error { return e.root.AddType("@n", nil) }},
+		{"AddType(@b,broken)", func(e *env) error { return e.root.AddType("@b", e.broken) }},
+		{"AddType(@r,regex)", func(e *env) error { return e.root.AddType("@r", e.re) }},
+		{"AddType(@r,bad regex)", func(e *env) error { return e.root.AddType("@r", e.badRe) }},
+		{"AddType(@root,root)", func(e *env) error { return e.root.AddType("@root", e.root) }},
+		{"t1.AddType(@root,root)", func(e *env) error { return e.t1.AddType("@root", e.root) }},
+		{"t1.AddType(@u,t2)", func(e *env) error { return e.t1.AddType("@u", e.t2) }},
+		{"AddRule(@e,enum)", func(e *env) error { return e.root.AddRule("@e", enum.New("@e", `[1, 2]`)) }},
+		{"AddRule(@e,broken enum)", func(e *env) error { return e.root.AddRule("@e", enum.New("@ebad", `[1, `)) }},
+		{"AddRule(@e,nil)", func(e *env) error { return e.root.AddRule("@e", nil) }},
+		{"Check", func(e *env) error { return e.root.Check() }},
+		{"Len", func(e *env) error { _, err := e.root.Len(); return err }},
+		{"Example", func(e *env) error { _, err := e.root.Example(); return err }},
+		{"t1.Check", func(e *env) error { return e.t1.Check() }},
+	}
+	var i int64
+	var rec func(seq []int)
+	run := func(rt string, seq []int) {
+		var names []string
+		for _, o := range seq {
+			names = append(names, ops[o].name)
+		}
+		desc := "root=" + strconv.Quote(rt) + " calls=" + strings.Join(names, "; ")
+		r.ord++
+		r.desc = append(append(r.desc[:0], "api"...), 0)
+		r.desc = append(r.desc, desc...)
+		if !w.Begin(r.ord, r.desc) {
+			return
+		}
+		w.S.Evaluations++
+		w.S.Traces++
+		w.S.Nontrivial++
+		sink := r.mk("api", []byte(desc), nil)
+		e := &env{root: jschema.New("root", rt), t1: jschema.New("@t", "{\n\t\"x\": @u // {optional: true}\n}"), t2: jschema.New("@u", `"s"`),
+			broken: jschema.New("@b", "{\n\t\"k\": \n}"), re: jregex.New("@r", "/a+/"), badRe: jregex.New("@rbad", "/(/")}
+		texts := map[string][]byte{"root": []byte(rt), "@t": []byte("{\n\t\"x\": @u // {optional: true}\n}"), "@u": []byte(`"s"`), "@b": []byte("{\n\t\"k\": \n}"),
+			"@r": []byte("/a+/"), "@rbad": []byte("/(/"), "@e": []byte(`[1, 2]`), "@ebad": []byte(`[1, `)}
+		for _, o := range seq {
+			op := ops[o]
+			call(sink, op.name, []byte(rt), texts, func() error { return op.f(e) })
+		}
+		call(sink, "Check", []byte(rt), texts, func() error { return e.root.Check() })
+		call(sink, "Example", []byte(rt), texts, func() error { _, err := e.root.Example(); return err })
+		call(sink, "GetAST", []byte(rt), texts, func() error { _, err := e.root.GetAST(); return err })
+		call(sink, "UsedUserTypes", []byte(rt), texts, func() error { _, err := e.root.UsedUserTypes(); return err })
+		call(sink, "Len", []byte(rt), texts, func() error { _, err := e.root.Len(); return err })
+	}
+	rec = func(seq []int) {
+		i++
+		if w.Mine(i) {
+			for _, rt := range roots {
+				run(rt, seq)
+			}
+		}
+		if len(seq) == 3 || (i&0xff == 0 && w.OverBudget()) {
+			return
+		}
+		for o := range ops {
+			if r.inputsOnly && strings.Contains(ops[o].name, "nil") {
+				continue
+			}
+			rec(append(append([]int{}, seq...), o))
+		}
+	}
+	rec(nil)
+	if w.Shard == 0 {
+		w.Count("api.sequences", i)
+	}
 }
 
 // stringFamily: quoted strings whose content mixes malformed UTF-8 bytes with
@@ -434,7 +528,7 @@ func init() {
 			return map[string]any{"schema_tokens": b.schemaN, "enum_tokens": b.enumN, "regex_bytes": b.regexN, "json_tokens": b.jsonN, "schema_open_lexemes": b.schemaD}
 		},
 		Run: func(w *core.W) {
-			r := &spaceRunner{w: w, mk: func(entry string, in []byte, wit []byte) callSink { return c16Sink(w, entry, in, wit) }}
+			r := &spaceRunner{w: w, inputsOnly: true, mk: func(entry string, in []byte, wit []byte) callSink { return c16Sink(w, entry, in, wit) }}
 			r.run(c02Bounds(w.Tier))
 			r.mutationFamily()
 			r.violationFamily()
